@@ -7,7 +7,7 @@ from vlib import gen_values as gv
 from vlib import gen_events as ge
 from vlib.compare import bisimilar
 from vlib.runner import Arm, Eval, Failure
-from vlib.util import exc_key, exc_msg, strings_in, have_c, has_foldable_more_indented_line
+from vlib.util import exc_key, exc_msg, strings_in, have_c, has_foldable_more_indented_line, shorthand_with_flow_indicator
 
 PROPERTY = "C12"
 LEVEL = "exploration"
@@ -536,6 +536,8 @@ def known_class(arm, case, key):
     if _c_fold_class(arm, case) and (parts[0] in ("document-differs", "node-differs", "events-differ", "load_all-rejects",
                                                   "compose_all-rejects", "parse-rejects-emitted")):
         return "libyaml-folds-inside-more-indented-line"
+    if arm not in ("values", "nodes") and parts[1].endswith(">c") and isinstance(case[0], list) and shorthand_with_flow_indicator(ge.build_events(case[0])):
+        return "libyaml-emitter-writes-flow-indicator-in-shorthand-tag"
     return None
 
 
